@@ -18,6 +18,11 @@ TRUSTED = [
 
 def gen_case(g):
     descs, edges = flow.gen_graph(g)
+    if g.chance(0.25):
+        # a node linked to nothing: it is an entry AND an exit, evaluated at every step like the others
+        dim = g.choice([1, 2, 3])
+        descs.append(flow.gen_node(g, g.choice(["identity", "relu", "plainlinear"]), dim))
+        descs[-1]["ext_dim"] = dim
     n_ops = g.randint(1, 3)
     ops = []
     for _ in range(n_ops):
@@ -164,7 +169,14 @@ def check_case(ctx, case):
             srows = []
             for t in range(L):
                 ext = {e: data[e][si][t] for e in data}
-                ostates = oracle_step(b, copies, ext, ostates)
+                try:
+                    ostates = oracle_step(b, copies, ext, ostates)
+                except Exception as e:  # noqa
+                    # the copies were initialised by the model itself: if they reject their predecessors' outputs
+                    # presented in the documented order, the model wired them in another order
+                    ctx.violation(f"a node of the model, as initialised by the model, rejects the outputs of its predecessors presented in the documented "
+                                  f"order (edges sorted by sender name + receiver name): {type(e).__name__}: {str(e)[:160]}", case, obligation=ob)
+                    return
                 srows.append({i: ostates[i].copy() for i in ostates})
             steps.append(srows)
         oracle_obs.append(steps)
